@@ -106,6 +106,7 @@ def run(ctx, flavour="static"):
     with ThreadPoolExecutor(max_workers=16) as ex:
         res = list(ex.map(_shard, jobs))
     diffs, vlines, stats, crashed, cases, samples = [], [], [], [], 0, []
+    window = dict(max_gap=0, table_insertions=0, at_or_below=0)   # runner W line (Model/Window.v), summed over the shards
     for r in res:
         if r["sim_rc"] != 0:
             crashed.append("sim shard %d seed %d rc=%d: %s" % (r["shard"], r["seed"], r["sim_rc"], r["sim_err"][-600:]))
@@ -114,6 +115,10 @@ def run(ctx, flavour="static"):
             crashed.append("runner shard %d: %s" % (r["shard"], r["runner_out"][-600:]))
         else:
             cases += int(m.group(1))
+        wm = re.search(r"^W max-gap=(\d+) table-insertions=(\d+) at-or-below-last-round=(\d+)", r["runner_out"], re.M)
+        if wm:
+            window["max_gap"] = max(window["max_gap"], int(wm.group(1)))
+            window["table_insertions"] += int(wm.group(2)); window["at_or_below"] += int(wm.group(3))
         for l in r["runner_out"].splitlines():
             if l.startswith("DIFF"):
                 diffs.append("shard=%d seed=%d %s" % (r["shard"], r["seed"], l[:600]))
@@ -135,7 +140,7 @@ def run(ctx, flavour="static"):
             try: os.remove(r["path"])
             except OSError: pass
     out = dict(diffs=diffs[:200], ndiffs=len(diffs), vlines=vlines[:200], nv=len(vlines), stats=stats, crashed=crashed,
-               cases=cases, samples=samples, sim_args=[str(a) for a in sim_args], shards=shards,
+               cases=cases, samples=samples, window=window, sim_args=[str(a) for a in sim_args], shards=shards,
                sim_s=max(r["sim_s"] for r in res), run_s=max(r["run_s"] for r in res), key=key)
     json.dump(out, open(summ, "w"))
     return out
